@@ -279,6 +279,7 @@ loop:
 		if err != nil {
 			return nil, err
 		}
+		p.ignoreWhitespace()
 
 		if p.input == "" {
 			return nil, errors.New("dictionary expected ',' or '}'")
